@@ -160,7 +160,9 @@ func (p *Processor) ChargingDataCreate(
 
 	consumerId := chargingData.NfConsumerIdentification.NFName
 	if !chargingData.OneTimeEvent {
-		chargingSessionId = ueId + consumerId + strconv.Itoa(int(self.LocalRecordSequenceNumber))
+		// the record sequence number is unique; keep it a separate, final component so that
+		// no two sessions can render the same reference
+		chargingSessionId = ueId + "-" + consumerId + "-" + strconv.Itoa(int(self.LocalRecordSequenceNumber))
 	}
 	cdr, err := p.OpenCDR(chargingData, ue, chargingSessionId, false)
 	if err != nil {
